@@ -85,7 +85,7 @@ def model_runs(ctx):
         # bounded task queue
         cfgq = write_cfg(ctx, "gen_TPq_%s.cfg" % tag, "SpecCap", consts(1, "T3", "G2", "Ops1_5"), SAFETY, ["NoRunWhileStopped"])
         rq = ctx.model("MC_TP", cfgq, workers=16, timeout=3000, heap="12g", extra=["-coverage", "1"])
-        if set(rq.coverage_zero_actions()) - {"P8", "SpawnRefused"}:
+        if set(rq.coverage_zero_actions()) - {"P8", "SpawnRefused", "S4w"}:
             raise MachineryError("vacuity (bounded queue): %s" % rq.coverage_zero_actions())
         os.remove(os.path.join(common.SPEC, cfgq))
         # pool sizes up to 3
